@@ -270,6 +270,50 @@ func init() {
 						}))
 					}
 					return "ok " + state()
+				case "loadfile": // kind arg : a configuration FILE (as an operator or an older version left it) is loaded at start
+					// kind = missing <dotted key> | extra <dotted key> | bad <dotted key>=<json> | ok
+					raw, _ := json.Marshal(config.NewDefault())
+					var doc map[string]any
+					json.Unmarshal(raw, &doc)
+					path := strings.Split(strings.SplitN(f[3], "=", 2)[0], ".")
+					var walk func(m map[string]any, p []string, fn func(m map[string]any, k string))
+					walk = func(m map[string]any, p []string, fn func(m map[string]any, k string)) {
+						if len(p) == 1 {
+							fn(m, p[0])
+							return
+						}
+						if sub, ok := m[p[0]].(map[string]any); ok {
+							walk(sub, p[1:], fn)
+						}
+					}
+					switch f[2] {
+					case "missing":
+						walk(doc, path, func(m map[string]any, k string) { delete(m, k) })
+					case "extra":
+						walk(doc, path, func(m map[string]any, k string) { m[k] = 1 })
+					case "bad":
+						var v any
+						json.Unmarshal([]byte(strings.SplitN(f[3], "=", 2)[1]), &v)
+						walk(doc, path, func(m map[string]any, k string) { m[k] = v })
+					}
+					out, _ := json.MarshalIndent(doc, "", "  ")
+					cp := config.VerifConfigPath()
+					os.WriteFile(cp, out, 0o644)
+					loaded, err := config.LoadOrDefault(cp)
+					if err != nil || loaded == nil {
+						return "load-error"
+					}
+					after, _ := os.ReadFile(cp)
+					o.Count("loadfile:" + f[2])
+					// a refused file is replaced by the defaults; an accepted one stays as written
+					if bytes.Equal(bytes.TrimSpace(after), bytes.TrimSpace(out)) {
+						// accepted: the proxy would now run under it - can it even be saved again?
+						if _, merr := json.Marshal(loaded); merr != nil {
+							return "accepted-but-unserialisable"
+						}
+						return "accepted"
+					}
+					return "rejected"
 				case "overwrite": // name token
 					for _, p := range s.props {
 						if p.name == f[2] {
@@ -352,6 +396,29 @@ func genConfig(c runCfg, o *Out, emit func(...string)) {
 	if c.n > 0 {
 		n = c.n
 	}
+	// configuration FILES: every key of the document, one missing at a time (a required setting that is absent makes the
+	// file unworkable: it is refused and replaced by the defaults), unknown keys, invalid values, and the complete file
+	fileKeys := []string{"proxy.listen", "proxy.ca_cert", "proxy.ca_key", "proxy.upstream_default_https", "proxy.retry_on_range_416", "proxy.retry_on_invalid_range",
+		"proxy.cache_policy.ignore_cache_control", "proxy.cache_policy.default_max_age", "proxy.cache_policy.force_default_max_age", "proxy.cache_policy",
+		"webserver.listen", "webserver.dashboard_disabled", "webserver.api_disabled", "webserver",
+		"cache.type", "cache.max_cache_size", "cache.cleanup_interval", "cache.lock_shards", "cache.file.dir", "cache.file", "cache.memory.memory_budget_percent", "cache.memory", "cache",
+		"logging.level", "logging"}
+	for _, k := range fileKeys {
+		emit("cf", "reset")
+		emit("cf", "loadfile", "missing", k)
+	}
+	for _, k := range []string{"proxy.bogus", "cache.memory.bogus", "bogus", "logging.bogus"} {
+		emit("cf", "reset")
+		emit("cf", "loadfile", "extra", k)
+	}
+	for _, kv := range []string{"cache.lock_shards=0", "cache.memory.memory_budget_percent=101", "cache.type=\"disk\"", "cache.max_cache_size=\"0B\"", "cache.cleanup_interval=\"0s\"", "proxy.listen=\"\"", "cache.lock_shards=\"many\"", "cache.max_cache_size=\"5K5\""} {
+		emit("cf", "reset")
+		emit("cf", "loadfile", "bad", kv)
+	}
+	emit("cf", "reset")
+	emit("cf", "loadfile", "ok", "-")
+	emit("cf", "reset")
+	emit("cf", "loadfile", "bad", "cache.lock_shards=7")
 	props := cfProps()
 	valid := map[string][]string{
 		"str":   {cfStr(":8080"), cfStr("x"), cfStr("var/other/"), cfStr("file"), cfStr("memory")},
